@@ -683,3 +683,51 @@ def bind_args(call, callee, skip_self=True):
             return None
         out[k.arg] = k.value
     return out
+
+
+def check_guard_table(ctx, table):
+    """Frozen table of (function, statement pattern, [(guard pattern(s), polarity)], label).
+
+    Each row was confirmed by reading.  The statement is found by matching the expanded term
+    of a call / the value of an assignment against `what`; every listed guard must dominate it
+    with the stated polarity.  A row whose statement is not found is an AnchorMissing (the
+    table must be re-confirmed), never a silent pass.
+    """
+    from ..values import pattern, match, match_any
+    from .. import AnchorMissing
+    for (qname, what, guards, label) in table:
+        fn = ctx.fn(qname)
+        ex = ctx.ex(fn)
+        sites = []
+        if not what.startswith(('store:', 'raise:', 'assign:')):
+            for n in own_nodes(fn.node):
+                if isinstance(n, ast.Call) and match(ex.term(n), pattern(what)) is not None:
+                    sites.append(n)
+        if not sites and what.startswith('store:'):
+            tgt = what[len('store:'):]
+            sites = [s for (s, t, k) in ctx.stores(fn, tgt) if k == 'assign']
+        if not sites and what.startswith('assign:'):
+            vpat = what[len('assign:'):]
+            sites = [n for n in own_nodes(fn.node) if isinstance(n, ast.Assign) and
+                     isinstance(n.targets[0], ast.Name) and
+                     match(ex.term(n.value), pattern(vpat)) is not None]
+        if not sites and what.startswith('raise:'):
+            idx = int(what[len('raise:'):])
+            rs = sorted((s for s in own_nodes(fn.node) if isinstance(s, ast.Raise)),
+                        key=lambda s: s.lineno)
+            sites = rs[idx:idx + 1]
+        if not sites:
+            raise AnchorMissing('{}: no statement `{}`'.format(qname, what))
+        for site in sites:
+            have = ctx.guards(fn, site)
+            missing = []
+            for (pats, pol) in guards:
+                pats = (pats,) if isinstance(pats, str) else tuple(pats)
+                if not any(p == pol and match_any(t, pats) is not None for (t, p, _) in have):
+                    missing.append('{}{}'.format('' if pol else 'not ', pats[0]))
+            ctx.check(not missing, fn, label,
+                      '{} under {}'.format(what[:50], ' and '.join(
+                          ('' if pol else 'not ') + (p if isinstance(p, str) else p[0])
+                          for (p, pol) in guards)[:90]),
+                      '`{}` does not run under {}: {}'.format(
+                          what[:60], ' and '.join(missing)[:120], label), fn=fn, node=site)
